@@ -1,8 +1,8 @@
 (* C17  Backward simulation leaves the model intact and respects dependencies.
    Statements only; proofs in Proofs/C17Proof.v, Proofs/LogOrder.v, Proofs/C09Proof.v. *)
 From Coq Require Import List ZArith QArith Bool Arith Permutation.
-From PV Require Import Model.Types Model.Sim Model.Backward Model.Example Proofs.Base Proofs.C01Proof
-  Proofs.LogOrder Proofs.C17Proof Proofs.C09Proof.
+From PV Require Import Model.Types Model.Sim Model.LogEdit Model.RevLog Model.Backward Model.BackwardRun Model.Example Proofs.Base Proofs.C01Proof
+  Proofs.LogOrder Proofs.C17Proof Proofs.C09Proof Proofs.C0708Proof Proofs.C17Run.
 Import ListNotations.
 Open Scope nat_scope.
 
@@ -67,6 +67,23 @@ Theorem C17_reversed_log_order : forall (lp li : list tstate), length lp = lengt
   forall j k, nth_error (rev lp) j = Some TWorking -> nth_error (rev li) k = Some TWorking -> j < k.
 Proof. intros lp li. apply order_reversed. Qed.
 Print Assumptions C17_reversed_log_order.
+
+(* (d) for the model of the whole call (Model/BackwardRun.v: inner run on the
+   reversed configuration extended by the helper tasks, then the log reversal):
+   in the time-reversed logs of a backward run an FS predecessor p of i is
+   logged WORKING only at steps strictly before the steps at which i is logged
+   WORKING, and every log of the project's own objects has one entry per step *)
+Theorem C17_backward_run_order : forall c due o e p i, o_init_state o = true -> o_init_log o = true ->
+  p < nT c -> i < nT c -> In (i, FS) (t_outputs c p) ->
+  let r := snd (backward_simulate c due true o e) in
+  forall j k, nth_error (l_st (tl r p)) j = Some TWorking -> nth_error (l_st (tl r i)) k = Some TWorking -> j < k.
+Proof. exact backward_fs_order. Qed.
+Print Assumptions C17_backward_run_order.
+
+Theorem C17_backward_run_lengths : forall c due rv o e, o_init_log o = true ->
+  AllLengths c (snd (backward_simulate c due rv o e)).
+Proof. exact backward_lengths. Qed.
+Print Assumptions C17_backward_run_lengths.
 
 (* non-vacuity: a chain 0 -> 1 -> 2 with due times making task 0's reversed
    image a tail that needs a helper: two tails after reversal would need two
